@@ -58,7 +58,8 @@ pub fn parse(file_tree: &SourceTree) -> Result<pr::ModuleDef, Errors> {
 // out into a separate crate, but it has dependencies on `prqlc` internals and
 // would be an effort)
 pub(crate) fn parse_source(source: &str, source_id: u16) -> Result<Vec<pr::Stmt>, Vec<Error>> {
-    let (tokens, mut errors) = prqlc_parser::lexer::lex_source_recovery(source, source_id);
+    let (tokens, errors) = prqlc_parser::lexer::lex_source_recovery(source, source_id);
+    let mut errors = lexer_errors_to_byte_spans(source, errors);
 
     let ast = if let Some(tokens) = tokens {
         debug::log_entry(|| debug::DebugEntryKind::ReprLr(lr::Tokens(tokens.clone())));
@@ -75,6 +76,31 @@ pub(crate) fn parse_source(source: &str, source_id: u16) -> Result<Vec<pr::Stmt>
     } else {
         Err(errors)
     }
+}
+
+/// The lexer reports its errors with character offsets, while the spans of tokens,
+/// of the AST and of every later error count bytes of the source text (which is what
+/// `ErrorMessages::composed` expects). Rewrites the former as the latter.
+pub(crate) fn lexer_errors_to_byte_spans(source: &str, errors: Vec<Error>) -> Vec<Error> {
+    if source.is_ascii() {
+        return errors;
+    }
+    let byte_of_char = |n: usize| {
+        source
+            .char_indices()
+            .nth(n)
+            .map_or(source.len(), |(byte, _)| byte)
+    };
+    errors
+        .into_iter()
+        .map(|mut e| {
+            if let Some(span) = &mut e.span {
+                span.start = byte_of_char(span.start);
+                span.end = byte_of_char(span.end);
+            }
+            e
+        })
+        .collect()
 }
 
 struct SourceFile<'a> {
